@@ -44,7 +44,9 @@ def all_ids_file(rng):
         ids = np.arange(1 << WIDTH[det])
         for chunk in np.array_split(ids, max(1, len(ids) // 1024)):
             words = [word_with_id(det, int(i), rng) for i in chunk]
-            ev = rf.Event(header=[1, evno, 2, 3, 0, 0, 4, 5, 6, 7], subdets=[rf.SubDet(did, [rf.Ros([rf.Rob(words)])])])
+            extra = [rf.SubDet(0xA5, [rf.Ros([rf.Rob([int(rng.integers(0, 2**32)) for _ in range(3)])])]),
+                     rf.SubDet(0x7C, [rf.Ros([rf.Rob([int(rng.integers(0, 2**32)) for _ in range(2)])])])] if evno % 2 == 0 else []
+            ev = rf.Event(header=[1, evno, 2, 3, 0, 0, 4, 5, 6, 7], subdets=[rf.SubDet(did, [rf.Ros([rf.Rob(words)])])] + extra)
             events.append(ev); evno += 1
     return [[e] for e in events]
 
@@ -134,6 +136,30 @@ def real_read(chk: core.Check, tabs):
         for f in raw["evt_header"].fields:
             if not ak.all(raw["evt_header"][f] == dec["evt_header"][f]):
                 chk.failing_input("raw read with ID decoding: event header", {"field": f}, "changed", "unchanged", "everything else being unchanged")
+        # every selection of sub-detectors (any subset, any order, with and without the non-digi collections trg / ef):
+        # the ids of each selected detector are the table images, whatever else is selected
+        sels = [["mdc"], ["tof"], ["emc"], ["muc"], ["ef", "mdc"], ["mdc", "ef"], ["trg", "muc"], ["ef", "trg", "tof", "emc"], ["muc", "emc", "tof", "mdc", "trg", "ef"], ["emc", "mdc"], ["ef"], ["trg"]]
+        for sel in sels:
+            with rc.NativeBackedReader():
+                with pybes3.open_raw(path) as r:
+                    raw_s = r.arrays(decode_reid=False, sub_detectors=sel, n_block_per_batch=11)
+                with pybes3.open_raw(path) as r:
+                    dec_s = r.arrays(sub_detectors=sel, n_block_per_batch=4)
+            chk.count(1, key="selection-" + ",".join(sel))
+            chk.hist("selection", ",".join(sel))
+            for d in sel:
+                if d in ("trg", "ef"):
+                    if not ak.all(ak.flatten(raw_s[d]) == ak.flatten(dec_s[d])):
+                        chk.failing_input(f"raw read with ID decoding: collection {d}", {"sub_detectors": sel}, "changed", "unchanged", "everything else being unchanged")
+                    continue
+                rid = ak.to_numpy(ak.flatten(raw_s[d]["id"])).astype(np.int64)
+                tid = ak.to_numpy(ak.flatten(dec_s[d]["id"]))
+                want = tabs[d][rid]
+                if len(tid) != len(want) or not np.array_equal(tid.astype(np.uint64), want.astype(np.uint64)):
+                    i = int(np.nonzero(tid.astype(np.uint64) != want.astype(np.uint64))[0][0]) if len(tid) == len(want) else 0
+                    chk.failing_input(f"raw read with ID decoding and sub_detectors={sel}: {d} id", {"sub_detectors": sel, "electronics_id": int(rid[i])}, hex(int(tid[i])), hex(int(want[i])),
+                                      "the id of every digi is the table image of the electronics id returned with decoding disabled (for every selection of sub-detectors)")
+                    return
     except IndexError as ex:
         chk.failing_input("raw read with ID decoding of a file containing every representable electronics id", {"file": "every 14/10/13/11-bit id of mdc/tof/emc/muc once"}, f"IndexError: {ex}", "decoded arrays", "mapped ... without ever indexing outside the table")
     finally:
